@@ -1591,8 +1591,8 @@ def oracle(c, out):
                        else _oracle_flags(c, exp, M, o['flags'], fs, ai, r))
             if msg is not None:
                 before = [p['op'] for p in c['ops'][:t]]
-                return (f'access {t + 1} ({what}, frames {o.get("frames", o.get("f"))}, as_index {ai}) on a '
-                        f'{c["open"]} image after {before}: {msg}')
+                return (f'access {t + 1} ({what}, frames {o.get("frames", o.get("f"))}, as_index {ai}) on the '
+                        f'image object (opened: {c["open"]}) after {before}: {msg}')
         return None
     if k == 'rwvm_apply':
         m, vals = c['map'], c['vals']
